@@ -795,6 +795,36 @@ def constant_variants(name, nums, rng, cap=200):
     return out
 
 
+def synth_label_start(name, rng, k=3):
+    """Valid numbers that begin with the letters of the format's own label (ISRC..., IMO..., GRID...): a step that
+    strips a printed label must not eat them."""
+    mod = get_module(name)
+    label = name.split('.')[-1].upper()
+    out = []
+    for v in corpus(name, limit=k, rng=rng):
+        try:
+            c = mod.validate(v)
+        except Exception:  # noqa: B902
+            continue
+        if not isinstance(c, str) or not c[:1].isalpha():
+            continue
+        for j in range(2, len(label) + 1):
+            cand = label[:j] + c[j:]
+            if len(cand) != len(c) or cand == c:
+                continue
+            try:
+                ok = mod.is_valid(cand) is True
+            except Exception:  # noqa: B902
+                ok = False
+            if not ok:
+                cand = _repair(mod, cand)
+                if cand is None or not cand.startswith(label[:j]):
+                    continue
+            if cand not in out:
+                out.append(cand)
+    return out
+
+
 def rich_corpus(name, limit, rng, n_synth=None, n_const=None):
     """Corpus sample + synthesised valid numbers + constant-substituted variants."""
     nums = corpus(name, limit=limit, rng=rng)
@@ -805,7 +835,7 @@ def rich_corpus(name, limit, rng, n_synth=None, n_const=None):
         n_const = max(4, limit)
     if len(cv) > n_const:
         cv = rng.sample(cv, n_const)
-    return nums + extra + cv
+    return nums + extra + cv + synth_label_start(name, rng)
 
 
 def synth_alphabet(name, rng, k=3, pool='+*&/Ñ', extra_random=3):
